@@ -440,3 +440,125 @@ Lemma consts_ok :
   [C19_LabelNoRollUp; C19_LabelSecond; C19_LabelMinute; C19_LabelHour; C19_LabelDay] = [0; 1; 2; 3; 4] /\
   C19_QuotaBytesPerMegabyte = 2 ^ 20 /\ C19_QuotaHoursPerDay * C19_HourNs = C19_DayNs.
 Proof. repeat split; vm_compute; try reflexivity; discriminate. Qed.
+
+(* ------------------------------------------------------------------ DeltaBetween on a time-ordered history *)
+
+(* sort.Search: when f is false below p and true from p on, the result is p *)
+Lemma bsearch_spec : forall fuel f i j p,
+  i <= p <= j -> (forall x, i <= x < p -> f x = false) -> (forall x, p <= x < j -> f x = true) ->
+  j - i <= Z.of_nat fuel -> bsearch fuel f i j = p.
+Proof.
+  induction fuel as [|k IH]; intros f i j p Hp Hlo Hhi Hf; cbn [bsearch].
+  - lia.
+  - destruct (Z.ltb_spec i j) as [Hij|Hij]; [|lia].
+    assert (Hm : i <= (i + j) / 2 < j).
+    { split; [apply Z.div_le_lower_bound; lia | apply Z.div_lt_upper_bound; lia]. }
+    destruct (f ((i + j) / 2)) eqn:Ef.
+    + apply IH; try lia.
+      * split; [lia|]. destruct (Z_lt_le_dec ((i + j) / 2) p) as [Hlt|]; [|lia].
+        rewrite Hlo in Ef by lia. discriminate.
+      * intros x Hx. apply Hlo. lia.
+      * intros x Hx. apply Hhi. lia.
+    + apply IH; try lia.
+      * split; [|lia]. destruct (Z_lt_le_dec ((i + j) / 2) p) as [|Hge]; [lia|].
+        rewrite Hhi in Ef by lia. discriminate.
+      * intros x Hx. apply Hlo. lia.
+      * intros x Hx. apply Hhi. lia.
+Qed.
+
+Lemma sorted_from_lower : forall h lo, sorted_from lo h -> Forall (fun e => lo <= e_t e) h.
+Proof.
+  induction h as [|e r IH]; intros lo H; [constructor|]. cbn in H. destruct H as [H1 H2].
+  constructor; [exact H1|]. eapply Forall_impl; [|apply IH; exact H2]. cbn. intros; lia.
+Qed.
+
+Lemma sorted_from_weaken : forall h lo lo', sorted_from lo h -> lo' <= lo -> sorted_from lo' h.
+Proof. destruct h as [|e r]; intros lo lo' H Hle; [exact I|]. cbn in *. split; [lia|tauto]. Qed.
+
+(* a time-ordered history splits at any instant into the entries not after it and the entries after it *)
+Lemma sorted_split : forall h lo t, sorted_from lo h ->
+  exists a b, h = a ++ b /\ Forall (fun e => e_t e * MS <= t) a /\ Forall (fun e => t < e_t e * MS) b /\ sorted_from lo b.
+Proof.
+  induction h as [|e r IH]; intros lo t H.
+  - exists [], []. repeat split; constructor.
+  - cbn in H. destruct H as [H1 H2]. destruct (Z_le_gt_dec (e_t e * MS) t) as [Hle|Hgt].
+    + destruct (IH (e_t e) t H2) as (a & b & E & Ha & Hb & Hs). exists (e :: a), b.
+      split; [cbn; now rewrite E|]. split; [constructor; assumption|]. split; [exact Hb|].
+      apply sorted_from_weaken with (e_t e); assumption.
+    + exists [], (e :: r). pose proof MS_pos. split; [reflexivity|]. split; [constructor|]. split; [|cbn; tauto].
+      constructor; [lia|]. eapply Forall_impl; [|apply sorted_from_lower; exact H2]. cbn. intros; nia.
+Qed.
+
+Lemma search_after_split a b t :
+  Forall (fun e => e_t e * MS <= t) a -> Forall (fun e => t < e_t e * MS) b ->
+  search_after (a ++ b) t = Z.of_nat (length a).
+Proof.
+  intros Ha Hb. unfold search_after. apply bsearch_spec.
+  - rewrite app_length. lia.
+  - intros x Hx. unfold after_at. rewrite nth_error_app1 by lia.
+    destruct (nth_error a (Z.to_nat x)) eqn:En; [|apply nth_error_None in En; lia].
+    apply nth_error_In in En. rewrite Forall_forall in Ha. specialize (Ha _ En). apply Z.ltb_ge. exact Ha.
+  - intros x Hx. rewrite app_length in Hx. unfold after_at. rewrite nth_error_app2 by lia.
+    destruct (nth_error b (Z.to_nat x - length a)) eqn:En; [|reflexivity].
+    apply nth_error_In in En. rewrite Forall_forall in Hb. specialize (Hb _ En). apply Z.ltb_lt. exact Hb.
+  - lia.
+Qed.
+
+Lemma skipn_length_app {A} (a b : list A) : skipn (length a) (a ++ b) = b.
+Proof. induction a; cbn; auto. Qed.
+Lemma firstn_length_app {A} (a b : list A) : firstn (length a) (a ++ b) = a.
+Proof. induction a; cbn; [now destruct b | now f_equal]. Qed.
+
+Lemma filter_none {A} (f : A -> bool) l : Forall (fun x => f x = false) l -> filter f l = [].
+Proof. induction 1 as [|x l Hx _ IH]; cbn; [reflexivity | now rewrite Hx]. Qed.
+Lemma filter_all {A} (f : A -> bool) l : Forall (fun x => f x = true) l -> filter f l = l.
+Proof. induction 1 as [|x l Hx _ IH]; cbn; [reflexivity | now rewrite Hx, IH]. Qed.
+
+Lemma window_is_range_sum_from : forall h lo t1 t2, sorted_from lo h -> t1 <= t2 ->
+  delta_between h t1 t2 = hsum (filter (in_window t1 t2) h).
+Proof.
+  intros h lo t1 t2 Hs Ht.
+  destruct (sorted_split h lo t1 Hs) as (a & b1 & E1 & Ha & Hb1 & Hs1).
+  destruct (sorted_split b1 lo t2 Hs1) as (c & b & E2 & Hc & Hb & _).
+  subst b1. subst h.
+  assert (Hc1 : Forall (fun e => t1 < e_t e * MS) c) by (apply Forall_app in Hb1; tauto).
+  unfold delta_between.
+  rewrite (search_after_split a (c ++ b) t1 Ha Hb1).
+  rewrite app_assoc.
+  rewrite (search_after_split (a ++ c) b t2).
+  2:{ apply Forall_app. split; [eapply Forall_impl; [|exact Ha]; cbn; intros; lia | exact Hc]. }
+  2:{ exact Hb. }
+  unfold sum_range. rewrite app_length.
+  replace (Z.to_nat (Z.of_nat (length a + length c) - Z.of_nat (length a))) with (length c) by lia.
+  rewrite Nat2Z.id, <- app_assoc, skipn_length_app, firstn_length_app.
+  rewrite !filter_app.
+  rewrite (filter_none _ a), (filter_all _ c), (filter_none _ b); [now rewrite app_nil_r| | |].
+  - eapply Forall_impl; [|exact Hb]. cbn. intros e He. unfold in_window.
+    apply andb_false_iff. right. apply Z.leb_gt. exact He.
+  - rewrite Forall_forall in Hc, Hc1. apply Forall_forall. intros e He. unfold in_window.
+    apply andb_true_iff. split; [apply Z.ltb_lt, Hc1, He | apply Z.leb_le, Hc, He].
+  - eapply Forall_impl; [|exact Ha]. cbn. intros e He. unfold in_window.
+    apply andb_false_iff. left. apply Z.ltb_ge. exact He.
+Qed.
+
+(* on a history ordered in time, DeltaBetween(t1, t2) is the sum of the deltas of the entries with t1 < ts <= t2 *)
+Theorem window_is_range_sum : forall h t1 t2, sorted h -> t1 <= t2 ->
+  delta_between h t1 t2 = hsum (filter (in_window t1 t2) h).
+Proof.
+  intros h t1 t2 Hs Ht. destruct h as [|e r].
+  - reflexivity.
+  - apply window_is_range_sum_from with (e_t e); [|exact Ht]. cbn. split; [lia | exact Hs].
+Qed.
+
+(* the binary searches need the order: on an unordered history the window can miss entries *)
+Lemma window_unsorted_differs :
+  exists h t1 t2, t1 <= t2 /\ delta_between h t1 t2 <> hsum (filter (in_window t1 t2) h).
+Proof.
+  exists [mkE 5000 1 C19_LabelNoRollUp; mkE 1000 2 C19_LabelNoRollUp; mkE 1000 4 C19_LabelNoRollUp], (2000 * MS), (6000 * MS).
+  split; vm_compute; discriminate.
+Qed.
+
+Example ex_window_range :
+  let h := [mkE 1000 5 C19_LabelSecond; mkE 2000 7 C19_LabelNoRollUp; mkE 2000 1 C19_LabelNoRollUp; mkE 3500 9 C19_LabelNoRollUp] in
+  sorted h /\ filter (in_window (1000 * MS) (2000 * MS)) h = [mkE 2000 7 C19_LabelNoRollUp; mkE 2000 1 C19_LabelNoRollUp].
+Proof. cbv zeta. split; [cbn; lia | vm_compute; reflexivity]. Qed.
